@@ -165,7 +165,7 @@ func (c12) Gen(tier string, seed int64, emit0 func([]Ev)) {
 		if i%2 == 0 {
 			ns = nsVals[r.Intn(len(nsVals))]
 		}
-		emit([]Ev{{"op": "time", "t_secs": W64(s), "t_ns": ns}})
+		emit([]Ev{{"op": "time", "t_secs": W64(s), "t_ns": ns, "zone_min": []int{0, 0, 60, -300, 840, -720, 330, 1}[r.Intn(8)]}})
 	}
 }
 
@@ -307,6 +307,10 @@ func (c12) Exec(h []Ev) []Ev {
 			case "time":
 				x := ebp.CreateComcastEBP()
 				t := time.Unix(int64(UW64(e["t_secs"]))-ntpOffset, int64(GI(e["t_ns"]))).UTC()
+				// the same instant expressed in another zone is the same instant
+				if z := GI(e["zone_min"]); z != 0 {
+					t = t.In(time.FixedZone("z", z*60))
+				}
 				x.SetEBPTime(t)
 				e["sec32"] = []int{int(x.TimeSeconds >> 24), int(x.TimeSeconds >> 16 & 0xff), int(x.TimeSeconds >> 8 & 0xff), int(x.TimeSeconds & 0xff)}
 				e["frac32"] = []int{int(x.TimeFraction >> 24), int(x.TimeFraction >> 16 & 0xff), int(x.TimeFraction >> 8 & 0xff), int(x.TimeFraction & 0xff)}
